@@ -28,7 +28,16 @@ func TestMain(m *testing.M) {
 
 type S struct{ A int }
 
-var vals = []interface{}{1, 2, "x", "y", true, 3.5, S{1}, int64(1), uint8(2), 2.000001, 2.000002, false, "", "1", S{2}, float32(1.5)}
+// SA: a comparable struct with an array field (an address with its port, say)
+type SA struct {
+	IP   [4]byte
+	Port int
+}
+
+var ptrTarget = 7
+
+var vals = []interface{}{1, 2, "x", "y", true, 3.5, S{1}, int64(1), uint8(2), 2.000001, 2.000002, false, "", "1", S{2}, float32(1.5),
+	[4]byte{10, 0, 0, 1}, [4]byte{10, 0, 0, 2}, [2]string{"a", "b"}, SA{[4]byte{10, 0, 0, 1}, 80}, &ptrTarget, complex(1, 2), 'x'}
 
 type mrule struct {
 	r    *hotspot.Rule
